@@ -793,11 +793,22 @@ impl Relation for OpRel {
     fn used_chips(&self) -> ZkStdLibArch {
         arch(&self.case)
     }
-    fn write_relation<W: std::io::Write>(&self, _w: &mut W) -> std::io::Result<()> {
-        Ok(())
+    fn write_relation<W: std::io::Write>(&self, w: &mut W) -> std::io::Result<()> {
+        // the case as JSON, length-prefixed
+        let body = serde_json::to_vec(&self.case).map_err(std::io::Error::other)?;
+        w.write_all(&(body.len() as u32).to_le_bytes())?;
+        w.write_all(&body)
     }
-    fn read_relation<R: std::io::Read>(_r: &mut R) -> std::io::Result<Self> {
-        Err(std::io::Error::other("not serialisable"))
+    fn read_relation<R: std::io::Read>(r: &mut R) -> std::io::Result<Self> {
+        let mut len = [0u8; 4];
+        r.read_exact(&mut len)?;
+        let n = u32::from_le_bytes(len) as usize;
+        if n > 1 << 20 {
+            return Err(std::io::Error::other("relation too long"));
+        }
+        let mut body = vec![0u8; n];
+        r.read_exact(&mut body)?;
+        Ok(OpRel { case: serde_json::from_slice(&body).map_err(std::io::Error::other)? })
     }
 }
 
